@@ -74,17 +74,21 @@ func rel(n int) string {
 }
 
 func sizeCases(quick bool) []sizeCase {
-	w := 24
+	w, w2 := 20, 6 // window around B; around the caller buffer 2B
 	if !quick {
-		w = 64
+		w, w2 = 64, 64
 	}
 	var cs []sizeCase
 	for _, b := range []int{scanBuf, 2 * scanBuf} {
+		ww := w
+		if b != scanBuf {
+			ww = w2
+		}
 		// incompressible data grows by the frame overhead: start lower so that the stored size sweeps the window too
-		for s := b - w - 24; s <= b+w; s++ {
+		for s := b - ww - 24; s <= b+ww; s++ {
 			cs = append(cs, sizeCase{Family: "incompressible-zstd", Plain: s})
 		}
-		for s := b - w; s <= b+w; s++ {
+		for s := b - ww; s <= b+ww; s++ {
 			cs = append(cs, sizeCase{Family: "raw", Plain: s}, sizeCase{Family: "compressible-zstd", Plain: s})
 		}
 	}
